@@ -37,6 +37,11 @@ class R(opscalar.ScalarOp):
         self.rL = rL
         self.r0 = r0
 
+        if r0 is None:
+            # no recovery term: nothing to differentiate with respect to r0
+            kwargs.setdefault("parameters_order1", {"rT", "rL"})
+            kwargs.setdefault("parameters_order2", {("rT", "rT"), ("rL", "rL")})
+
         # init operator
         opscalar.diff.DiffOperator.__init__(
             self, name=name, duration=duration, **kwargs
